@@ -871,7 +871,10 @@ impl<'a> CommentRewrite<'a> {
 
             self.fmt.shape = if self.is_prev_line_multi_line {
                 // 1 = " "
-                let offset = 1 + last_line_width(&self.result) - self.line_start.len();
+                // (`line_start` is counted in bytes: with a multi-byte comment opener it can be
+                // the larger of the two)
+                let offset =
+                    (1 + last_line_width(&self.result)).saturating_sub(self.line_start.len());
                 Shape {
                     width: self.max_width.saturating_sub(offset),
                     indent: self.fmt_indent,
